@@ -131,6 +131,8 @@ def build_recording(tier):
     if os.path.exists(os.path.join(d, "DONE")) and not os.environ.get("VERIF_NOCACHE"):
         c.log("family F2: using cached recording " + os.path.basename(d))
         return d
+    final_d = d          # (several checks of the family may start at once: build privately, publish with one rename)
+    d = "%s.tmp-%d" % (final_d, os.getpid())
     shutil.rmtree(d, ignore_errors=True)
     os.makedirs(d)
     t0 = time.time()
@@ -166,8 +168,20 @@ def build_recording(tier):
     c.log("recording: %d projects x 5 engines generated and compiled, %d requests -> %d executions judged by TLC, %.0fs" %
           (stats["cases"], stats["requests"], stats["runs"], meta["wall"]))
     open(os.path.join(d, "DONE"), "w").write("ok")
-    for old in sorted((os.path.join(base, x) for x in os.listdir(base) if x.startswith("f2-")), key=os.path.getmtime)[:-3]:
+    if os.environ.get("VERIF_NOCACHE"):
+        shutil.rmtree(final_d, ignore_errors=True)
+    try:
+        os.rename(d, final_d)
+        d = final_d
+    except OSError:
+        if os.path.exists(os.path.join(final_d, "DONE")):
+            shutil.rmtree(d, ignore_errors=True)
+            d = final_d
+    for old in sorted((os.path.join(base, x) for x in os.listdir(base) if x.startswith("f2-") and ".tmp-" not in x), key=os.path.getmtime)[:-3]:
         shutil.rmtree(old, ignore_errors=True)
+    for x in os.listdir(base):
+        if x.startswith("f2-") and ".tmp-" in x and time.time() - os.path.getmtime(os.path.join(base, x)) > 6 * 3600:
+            shutil.rmtree(os.path.join(base, x), ignore_errors=True)
     return d
 
 
